@@ -149,7 +149,7 @@ def tmpl_multi(rng):
             "outs": {"p": ["sub/gen/a.o", "sub/gen/deep/b.o", "sub/gen/lib.o"], "c": ["c.out"]}, "cmd_out": {"p": ["CMD:sub:cat v.val"]},
             "targets": ["p", "c"],
             "inv": {"p": [dict(entry=".", name="sub::p"), dict(entry="sub", name="p"), dict(entry="sub", name="sub::p"),
-                          dict(entry="sub/../sub", name="p"), dict(entry="sublink", name="p"), dict(entry="data/../sub/./", name="sub::p")],
+                          dict(entry="sub/../sub", name="p"), dict(entry="sublink", name="p"), dict(entry="sub/./../sub/.", name="sub::p")],
                     "c": dict(entry=".", name="c")},
             "state": {"p": ("sub", "sub::p"), "c": (".", "c")}}
 
